@@ -14,6 +14,7 @@ import re
 import signal
 import subprocess
 import time
+from concurrent.futures import ThreadPoolExecutor
 
 import core
 
@@ -25,6 +26,13 @@ CLAUSES = {
 }
 TOOL_CLAUSES = {"tool-odd-invalid"}
 VAL = ("trace/MsgCheck.tla", "trace/MsgCheck.cfg")
+# Most TLC runs here last a few seconds: stopping the JIT at C1 halves their CPU cost (measured); long
+# (thorough) runs keep the full JIT.
+FAST_JVM = {"JAVA_TOOL_OPTIONS": "-XX:TieredStopAtLevel=1"}
+
+
+def jenv(chk):
+    return dict(FAST_JVM) if chk.quick else {}
 
 
 def load_own_known(chk):
@@ -49,10 +57,48 @@ def sig_of(t):
     return k
 
 
-def validate(chk, path, shards=12, tags=("MISMATCH",)):
-    out, lines, rs = core.tlc_validate(VAL[0], VAL[1], path, shards=shards, timeout=3000, tags=tags)
+def validate(chk, path, shards=12, tags=("MISMATCH",), min_lines=40):
+    """Shape-A validation like core.tlc_validate, with a finer shard size: the lines of MsgCheck are
+    expensive (each evaluates ParseMsg on whole messages) and every line is an initial state, which TLC
+    computes in one thread -- so parallelism comes from the number of JVMs only."""
+    with open(path) as f:
+        lines = [x for x in f.read().split("\n") if x.strip()]
+    n = len(lines)
+    if n == 0:
+        raise core.ToolError("no observations in %s" % path)
+    shards = max(1, min(shards, n // min_lines or 1))
+    per = (n + shards - 1) // shards
+    parts = []
+    for i in range(shards):
+        chunk = lines[i * per:(i + 1) * per]
+        if chunk:
+            p = "%s.shard%d" % (path, i)
+            with open(p, "w") as f:
+                f.write("\n".join(chunk) + "\n")
+            parts.append((p, i * per, len(chunk)))
+
+    def one(part):
+        p, off, cnt = part
+        r = core.tlc(VAL[0], VAL[1], env=dict(jenv(chk), TRACE=p), workers=1, timeout=3000, keep_emit_tags=set(tags), heap="2g")
+        if r.violation:
+            raise core.ToolError("validator MsgCheck failed on %s:\n%s" % (p, r.violation[:3000]))
+        if r.distinct != cnt:
+            raise core.ToolError("validator MsgCheck consumed %d of %d lines of %s\n%s" % (r.distinct, cnt, p, r.raw_tail[-1500:]))
+        for t in tags:
+            for rec in r.emits.get(t, []):
+                if isinstance(rec, dict) and "line" in rec:
+                    rec["line"] += off
+        return r
+
+    with ThreadPoolExecutor(max_workers=len(parts)) as ex:
+        rs = list(ex.map(one, parts))
+    out = {t: [] for t in tags}
     for r in rs:
         chk.add("validator_states", r.distinct)
+        for t in tags:
+            out[t].extend(r.emits.get(t, []))
+    for p, _, _ in parts:
+        os.unlink(p)
     return out, lines
 
 
@@ -88,13 +134,13 @@ def run_c11(chk, binp):
     # The generator run also checks the specification's own law on every emitted case (INVARIANT Law:
     # ParseMsg o MsgBytes = id, body offset 8-aligned, declared lengths / fd counts = actual, TotalLen).
     cases = chk.path("cases.ndjson")
-    g, n = core.tlc_generate("gen/Gen_MsgBuild.tla", "gen/Gen_MsgBuild_%s.cfg" % ("quick" if quick else "thorough"), cases, timeout=3000)
+    g, n = core.tlc_generate("gen/Gen_MsgBuild.tla", "gen/Gen_MsgBuild_%s.cfg" % ("quick" if quick else "thorough"), cases, timeout=3000, env=jenv(chk))
     chk.add_tlc(g)
     chk.cov["mc_selfcheck_cases"] = g.distinct
     core.log("[C11] generated %d cases (law checked) in %.1fs" % (n, g.wall))
     obs = chk.path("obs_enum.ndjson")
     core.run_bin(binp, ["obs-build", cases, obs])
-    nr = 700 if quick else 30000
+    nr = 500 if quick else 30000
     robs = chk.path("obs_rand.ndjson")
     core.run_bin(binp, ["rand-build", nr, chk.seed, robs])
     allobs = chk.path("obs_all.ndjson")
@@ -102,7 +148,7 @@ def run_c11(chk, binp):
         f.write(open(obs).read())
         f.write(open(robs).read())
     t0 = time.time()
-    out, lines = validate(chk, allobs, shards=14)
+    out, lines = validate(chk, allobs, shards=8)
     core.log("[C11] validated %d observations in %.1fs" % (len(lines), time.time() - t0))
     classify_build(chk, out["MISMATCH"], lines)
     chk.add("enumerated_cases", n)
@@ -186,20 +232,22 @@ def classify_hostile(chk, mism, lines, diag):
 def run_c12(chk, binp):
     quick = chk.quick
     cases = chk.path("cases.ndjson")
-    g, n = core.tlc_generate("gen/Gen_MsgMut.tla", "gen/Gen_MsgMut_%s.cfg" % ("quick" if quick else "thorough"), cases, timeout=3000)
+    g, n = core.tlc_generate("gen/Gen_MsgMut.tla", "gen/Gen_MsgMut_%s.cfg" % ("quick" if quick else "thorough"), cases, timeout=3000, env=jenv(chk))
     chk.add_tlc(g)
     core.log("[C12] generated %d mutations in %.1fs" % (n, g.wall))
     obs = chk.path("obs_mut.ndjson")
+    t0 = time.time()
     aborts = observe_hostile(chk, binp, lambda s: ["obs-hostile", cases, obs, s], obs)
-    nr = 4000 if quick else 300000
+    nr = 4000 if quick else 100000
     robs = chk.path("obs_rand.ndjson")
     aborts += observe_hostile(chk, binp, lambda s: ["rand-hostile", nr, chk.seed, robs, s], robs)
+    core.log("[C12] observed in %.1fs" % (time.time() - t0))
     allobs = chk.path("obs_all.ndjson")
     with open(allobs, "w") as f:
         f.write(open(obs).read())
         f.write(open(robs).read())
     t0 = time.time()
-    out, lines = validate(chk, allobs, shards=10, tags=("MISMATCH", "DIAG"))
+    out, lines = validate(chk, allobs, shards=8, tags=("MISMATCH", "DIAG"))
     core.log("[C12] validated %d observations in %.1fs" % (len(lines), time.time() - t0))
     classify_hostile(chk, out["MISMATCH"], lines, out["DIAG"])
     chk.add("enumerated_cases", n)
@@ -244,7 +292,7 @@ def classify_compat(chk, mism, lines):
 
 def run_c13(chk, binp):
     quick = chk.quick
-    r = core.tlc("mc/MC_MsgReader.tla", "mc/MC_MsgReader.cfg", timeout=1200)
+    r = core.tlc("mc/MC_MsgReader.tla", "mc/MC_MsgReader.cfg", timeout=1200, env=jenv(chk))
     if r.violation:
         raise core.ToolError("MC_MsgReader: the reader specification violates its invariants:\n" + r.violation[:2000])
     chk.add_tlc(r)
@@ -256,13 +304,13 @@ def run_c13(chk, binp):
         if not acts.get(a):
             raise core.ToolError("MC_MsgReader: action %s never taken (vacuous model)" % a)
     # non-vacuity of the invariants: a named deviation must be caught by them
-    rd = core.tlc("mc/MC_MsgReader.tla", "mc/MC_MsgReader_dev.cfg", timeout=1200)
+    rd = core.tlc("mc/MC_MsgReader.tla", "mc/MC_MsgReader_dev.cfg", timeout=1200, env=jenv(chk))
     if not rd.violation or "NeverStopsOnTolerated" not in rd.violation:
         raise core.ToolError("MC_MsgReader: the deviation run did not violate NeverStopsOnTolerated (vacuous invariant)")
     chk.cov["mc_deviation_caught"] = True
     core.log("[C13] MC_MsgReader %d states in %.1fs; deviation run %.1fs" % (r.distinct, r.wall, rd.wall))
     cases = chk.path("cases.ndjson")
-    g, n = core.tlc_generate("gen/Gen_MsgCompat.tla", "gen/Gen_MsgCompat_%s.cfg" % ("quick" if quick else "thorough"), cases, timeout=3000)
+    g, n = core.tlc_generate("gen/Gen_MsgCompat.tla", "gen/Gen_MsgCompat_%s.cfg" % ("quick" if quick else "thorough"), cases, timeout=3000, env=jenv(chk))
     chk.add_tlc(g)
     core.log("[C13] generated %d streams in %.1fs" % (n, g.wall))
     obs = chk.path("obs.ndjson")
@@ -275,7 +323,7 @@ def run_c13(chk, binp):
             if "tool_error" in cn:
                 raise core.ToolError("connection harness failed on case %s (%s): %s" % (o["id"], cn["mode"], cn["tool_error"]))
     t0 = time.time()
-    out, lines = validate(chk, obs, shards=14)
+    out, lines = validate(chk, obs, shards=6)
     core.log("[C13] validated %d observations in %.1fs" % (len(lines), time.time() - t0))
     classify_compat(chk, out["MISMATCH"], lines)
     chk.add("enumerated_cases", n)
